@@ -187,9 +187,9 @@ def check_engine(prop, tier, seed):
     sims = {}
     for v in variants:
         sims[v], _ = V.build(v)
-    det_mod = {'env': (7 if tier == 'thorough' else 11),
-               'prim': (29 if tier == 'thorough' else 101),
-               'sched': (5 if tier == 'thorough' else 7)}[engine]
+    det_mod = {'env': (97 if tier == 'thorough' else 29),
+               'prim': (211 if tier == 'thorough' else 101),
+               'sched': (197 if tier == 'thorough' else 23)}[engine]
     det_runs = {}
     audit_msgs = []
     for v in variants:
